@@ -95,6 +95,9 @@ def run_wireforms(r, ni):
              [P("f", None, b"a --bd b"), P("g", None, b"--bd"), P("h", None, b"x--bd--")],
              # parts whose Content-Disposition names no field: parts all the same, counted like any other
              [P(None, None, b"x"), P("f", None, b"ab"), P(None, "up.bin", b"0123"), P("g", None, b"c"), P(None, None, b"")]]
+    # values that end in a line-break character which cannot be taken for a piece of the delimiter's own line break in this spelling
+    for tail in {b"\r\n": (b"\r", b"\n", b"\r\n"), b"\n": (b"\n",), b"\r": (b"\r", b"\n")}[nl]:
+        forms.append([P("f", None, b"ab" + tail), P("u", "t.bin", b"01" + tail), P("g", None, tail)])
     for fi, parts in enumerate(forms):
         want_items = MR.expected_items(parts)
         n = len(parts)
